@@ -35,6 +35,12 @@ type Schema struct {
 	Tier         string // "quick" or "thorough"
 	ExtraDeps    []*descriptorpb.FileDescriptorProto // non-generated, non-wellknown deps (e.g. cosmos.proto)
 	PerFile      bool // one plugin invocation per file to generate (the way protoc is usually driven), outputs merged
+	// NoModel: the output is type-checked but not modelled (a request for the protoc-gen-go part alone has no
+	// fast-reflection code to analyse).
+	NoModel bool
+	// PbGo lists files of the request that the stock protoc-gen-go (built from the module cache) generates into the
+	// same workspace: proto2 neighbours of the generated files, whose Go code another generator provides in real use.
+	PbGo []string
 	// OutMap places response files whose names are not import-path based (paths=source_relative, module=) into the
 	// directory of their Go package: response name -> name under the corpus root. A name it does not list is kept.
 	OutMap map[string]string
@@ -55,6 +61,9 @@ type Workspace struct {
 	Plugin string // built plugin binary
 	ModDir string // root of the corpus module
 	repo   string
+	pbgo     string // the stock protoc-gen-go, built on demand
+	pbgoOnce sync.Once
+	pbgoErr  error
 }
 
 // NewWorkspace builds the working-tree plugin into a scratch dir.
@@ -228,7 +237,54 @@ func (w *Workspace) Run(s *Schema) *Result {
 		}
 		res.Files[n] = f.GetContent()
 	}
+	if len(s.PbGo) > 0 && resp.Error == nil {
+		if err := w.runPbGo(s, req, res); err != nil {
+			res.RunErr = fmt.Errorf("companion protoc-gen-go: %v", err)
+		}
+	}
 	return res
+}
+
+// runPbGo generates the schema's PbGo files with the stock protoc-gen-go.
+func (w *Workspace) runPbGo(s *Schema, req *pluginpb.CodeGeneratorRequest, res *Result) error {
+	w.pbgoOnce.Do(func() {
+		w.pbgo = filepath.Join(w.Dir, "protoc-gen-go")
+		cmd := exec.Command("go", "build", "-o", w.pbgo, "google.golang.org/protobuf/cmd/protoc-gen-go")
+		cmd.Dir = w.repo
+		cmd.Env = core.GoEnv("GOFLAGS=-mod=mod")
+		if out, err := cmd.CombinedOutput(); err != nil {
+			w.pbgoErr = fmt.Errorf("building protoc-gen-go from the module cache failed: %v\n%s", err, out)
+		}
+	})
+	if w.pbgoErr != nil {
+		return w.pbgoErr
+	}
+	r2 := proto.Clone(req).(*pluginpb.CodeGeneratorRequest)
+	r2.FileToGenerate = s.PbGo
+	r2.Parameter = nil
+	in, err := proto.Marshal(r2)
+	if err != nil {
+		return err
+	}
+	cmd := exec.Command(w.pbgo)
+	cmd.Stdin = bytes.NewReader(in)
+	var stdout, stderr bytes.Buffer
+	cmd.Stdout, cmd.Stderr = &stdout, &stderr
+	cmd.Env = []string{"PATH=/usr/bin:/bin", "HOME=" + w.Dir, "TMPDIR=" + w.Dir}
+	if err := cmd.Run(); err != nil {
+		return fmt.Errorf("%v: %s", err, tail(stderr.String(), 400))
+	}
+	resp := &pluginpb.CodeGeneratorResponse{}
+	if err := proto.Unmarshal(stdout.Bytes(), resp); err != nil {
+		return err
+	}
+	if resp.Error != nil {
+		return fmt.Errorf("%s", resp.GetError())
+	}
+	for _, f := range resp.File {
+		res.Files[f.GetName()] = f.GetContent()
+	}
+	return nil
 }
 
 func tail(s string, n int) string {
